@@ -16,7 +16,7 @@ CLAIMS = {
    technique='CBMC code contracts (DFCC) on extracted template bodies, capacity fixed per variant'),
  'C02': dict(level='other', design='6 C02',
    text='nextPoT proved for all n (bucket index always in range). Map::indexOf, set/operator(), remove, operator== verified as finite-map operations on every strictly sorted map of up to 8 int keys '
-        '(sortedness is a quantified hypothesis: constant bound). Map::add: one update per pair of the source, source storage not shared. HashMap and Set operator== by lookup (this <= 3 entries): equal iff same length and every entry found with an equal value. HashMap::remove, operator[], find/has on a bucket chain of up to 3 colliding nodes: exactly the addressed node is unlinked/appended, all other colliding entries stay reachable, node freed once, length +-1.',
+        '(sortedness is a quantified hypothesis: constant bound). Map::add: one update per pair of the source, source storage not shared. HashMap and Set operator== by lookup (this <= 3 entries): equal iff same length and every entry found with an equal value. HashMap::Enumerator visits every entry of every bucket once (tables of up to 5 buckets); compare(String, String) is the byte-wise lexicographic order that separates a string from its proper prefixes (keys up to 4 bytes). HashMap::remove, operator[], find/has on a bucket chain of up to 3 colliding nodes: exactly the addressed node is unlinked/appended, all other colliding entries stay reachable, node freed once, length +-1.',
    note=TB + 'Level other: all functional units are bounded (<= 8 keys, chains <= 3). Rehash bucket placement is proved (HashMap_rehash_bin). Not decided: Set algebra, String keys, clone/merge. Histories by induction over the proved operations.',
    technique='CBMC code contracts (DFCC) with constant-bound sortedness / chain shape'),
  'C20': dict(level='proof', design='6 C20',
@@ -35,7 +35,7 @@ CLAIMS = {
  'C04': dict(level='other', design='6 C04',
    text='Var::operator=(const String&) for every scalar/string target and every string up to 12 characters (the 7/8 inline boundary: the 8-byte inline buffer is never overrun, the Var holds exactly the bytes); '
         'Var::operator== on strings for every combination of inline / heap representation (only the text matters, a string never equals a non-string); Var::operator=(const Var&) with the source an element of the target array '
-        '(no read of released storage, target equals the entry value, one reference dropped). Var::clone: strings/arrays/objects are detached (dup) before any child is replaced by its clone (proved, typestate abstraction).',
+        '(no read of released storage, target equals the entry value, one reference dropped). Var::clone: strings/arrays/objects are detached (dup) before any child is replaced by its clone; Var::copy duplicates a heap string (arrays/objects are shared handles); Var(unsigned) holds its argument for all 2^32 values (proved).',
    note=TB + 'Level other: all units are bounded (text lengths, 2-element arrays). Containers inside the Var are the C01 Array contracts executed as stubs. Not decided: numeric == lattice, Dic payloads, operator[] auto-vivification, conversions through atof.',
    technique='CBMC code contracts (DFCC) on extracted Var member functions with container contracts as stubs'),
  'C05': dict(level='proof', design='6 C05',
@@ -73,7 +73,7 @@ CLAIMS = {
    technique='CBMC code contracts (DFCC) per template instantiation, ghost-index byte specification'),
  'C17': dict(level='proof', design='6 C17',
    text='Only what asl itself computes: one turn of TextFile::readLine for lines of any length across the 255-byte chunks (buffer handed to fgets inside the capacity, indices in range, LF and one preceding CR cut, progress or exit each turn); '
-        'one turn of the UTF-16LE / UTF-16BE loops of text() (unit assembly in the file byte order, CR LF folding never shrinks an empty array); the plain branch of text() for every file size and read result; File::close closes once and drops the cached FileInfo.',
+        'one turn of the UTF-16LE / UTF-16BE loops of text() (unit assembly in the file byte order, CR LF folding never shrinks an empty array); the plain branch of text() for every file size and read result; File::close closes once and drops the cached FileInfo; the BOM probe of text() starts the text at offset 3 exactly for EF BB BF and at 0 otherwise; the block loop of Directory::copy reports success only after every byte was written (any file size).',
    note=TB + 'fgets/fread are stubs with their ISO C contracts; Strings/Arrays are ghost lengths with the C03/C01 contracts. NOT decided (theorems about the OS or outside the contract language): that written bytes come back from disk, size(), append/reopen histories, lines(), Directory copy/move, files containing NUL bytes.',
    technique='CBMC code contracts on extracted loop bodies with libc/OS calls as contract stubs'),
  'C19': dict(level='proof', design='6 C19',
@@ -89,7 +89,7 @@ CLAIMS = {
    technique='CBMC code contracts on extracted code regions with callee contracts as stubs'),
  'C10': dict(level='proof', design='6 C10',
    text='Framing arithmetic only: Socket_::read / Socket_::write (blocking) hand the caller\'s buffer to the OS consecutively, each byte exactly once, never beyond its end, and terminate; '
-        'HttpMessage::write sends a body of any length up to 10^8 in consecutive blocks of 1..128000 bytes covering it exactly once, each framed as hex-size CRLF data CRLF in chunked mode. Receiving side (units shared with C09): each turn of the body/header loops consumes input or ends; a chunk-size line read is always followed by reading that chunk\'s CRLF (nothing of the message is left in a kept-alive connection).',
+        'HttpMessage::write sends a body of any length up to 10^8 in consecutive blocks of 1..128000 bytes covering it exactly once, each framed as hex-size CRLF data CRLF in chunked mode. writeFile sends exactly the bytes of the range, never more than the announced length. Query values: parseQuery splits, replaces + and then percent-decodes (unit shared with C09). Receiving side (units shared with C09): each turn of the body/header loops consumes input or ends; a chunk-size line read is always followed by reading that chunk\'s CRLF (nothing of the message is left in a kept-alive connection).',
    note=TB + 'The exchange property as a whole is NOT decided: end-to-end equality of method/headers/status/body over real sockets, keep-alive, many clients in flight (schedules), file bodies with ranges, readBody/readHeaders text parsing. OS read/send are stubs with their POSIX contracts.',
    technique='CBMC code contracts with loop contracts on extracted bodies, OS calls as contract stubs'),
  'C11': dict(level='proof', design='6 C11',
